@@ -20,6 +20,20 @@ type pt struct {
 	B string `json:"b"`
 }
 
+type innerT struct {
+	N int `json:"n"`
+}
+
+// outerT: a struct with a pointer field and an `any` field whose schemas are struct schemas themselves (a nil there
+// makes the FIELD schema report "expected struct, received nil")
+type outerT struct {
+	A int     `json:"a"`
+	I *innerT `json:"i"`
+	X any     `json:"x"`
+}
+
+func sampleFunc() {}
+
 // strFmt: a string-format schema (embedded *ZodString): bare / with a string check.
 func strFmt(name string, mk func() any, valid string) gentry {
 	return gentry{name, func() any {
@@ -41,18 +55,30 @@ func gentries2() []gentry {
 	st := func() any {
 		return gozod.Struct[pt](core.StructSchema{"a": gozod.Int().Min(10), "b": gozod.String().Optional()})
 	}
+	nested := func() any {
+		in := func() core.ZodSchema { return gozod.Struct[innerT](core.StructSchema{"n": gozod.Int().Min(0)}) }
+		return gozod.Struct[outerT](core.StructSchema{"a": gozod.Int().Min(10), "i": in(), "x": in()})
+	}
+	fnAny := any(sampleFunc)
 	es := []gentry{
 		{"bigint", func() any { return gozod.BigInt() }, func() any { return gozod.BigInt() }, []any{big.NewInt(50), big.NewInt(5)}, big.NewInt(42)},
 		{"complex", func() any { return gozod.Complex128() }, func() any { return gozod.Complex128() }, []any{complex(1, 2), complex(0, 0)}, complex(3, 4)},
 		{"discriminatedunion", du, du, []any{map[string]any{"type": "a", "x": 50}, map[string]any{"type": "a", "x": 5}, map[string]any{"type": "zz"}, map[string]any{"type": "b"}}, map[string]any{"type": "b"}},
 		{"file", func() any { return gozod.File() }, func() any { return gozod.File() }, []any{"notafile"}, "notafile"},
-		{"function", func() any { return gozod.Function() }, func() any { return gozod.Function() }, []any{"notafunc"}, "notafunc"},
+		{"function", func() any { return gozod.Function() }, func() any { return gozod.Function() }, []any{"notafunc", sampleFunc, &fnAny, func(int) string { return "" }}, sampleFunc},
 		{"never", func() any { return gozod.Never() }, func() any { return gozod.Never() }, []any{"x", 1}, "d"},
 		{"nil", func() any { return gozod.Nil() }, func() any { return gozod.Nil() }, []any{"x"}, "d"},
 		{"set", func() any { return gozod.Set[string](gozod.String().Min(3)).Min(1) }, func() any { return gozod.Set[string](gozod.String().Min(3)) },
 			[]any{map[string]struct{}{"hello": {}}, map[string]struct{}{"x": {}}, map[string]struct{}{}}, map[string]struct{}{"dflt": {}}},
 		{"stringbool", func() any { return gozod.StringBool() }, func() any { return gozod.StringBool() }, []any{"true", "nope", true, false}, true},
-		{"struct", st, st, []any{pt{50, "x"}, pt{5, "x"}, pt{}}, pt{42, "d"}},
+		{"struct", st, st, []any{pt{50, "x"}, pt{5, "x"}, pt{}, map[string]any{"a": 50, "b": "x"}, map[string]any{"a": 5}, map[any]any{"a": 50}}, pt{42, "d"}},
+		{"structptr", func() any {
+			return gozod.StructPtr[pt](core.StructSchema{"a": gozod.Int().Min(10), "b": gozod.String().Optional()})
+		}, func() any {
+			return gozod.StructPtr[pt](core.StructSchema{"a": gozod.Int().Min(10), "b": gozod.String().Optional()})
+		}, []any{pt{50, "x"}, pt{5, "x"}, pt{}, map[string]any{"a": 50, "b": "x"}}, pt{42, "d"}},
+		{"structnested", nested, nested, []any{outerT{A: 50, I: &innerT{3}, X: innerT{4}}, outerT{A: 50}, outerT{A: 50, I: &innerT{3}}, outerT{A: 50, X: innerT{-1}},
+			outerT{A: 5, I: &innerT{3}, X: "str"}, map[string]any{"a": 50, "i": map[string]any{"n": 3}, "x": map[string]any{"n": 4}}}, outerT{A: 42, I: &innerT{1}, X: innerT{2}}},
 		{"tuple", func() any { return gozod.Tuple(gozod.Int().Min(10), gozod.String()) }, func() any { return gozod.Tuple(gozod.Int().Min(10), gozod.String()) },
 			[]any{[]any{11, "x"}, []any{1, "x"}, []any{11}}, []any{20, "d"}},
 		{"xor", func() any { return gozod.Xor([]any{gozod.String().Min(3), gozod.Int().Min(10)}) }, func() any { return gozod.Xor([]any{gozod.String().Min(3), gozod.Int().Min(10)}) },
